@@ -137,7 +137,14 @@ func VH_C05_L4_writeset() {
 	ctxBefore := vSnapshotBytes(p.context)
 	hooksBefore := append([]Hook(nil), p.hooks...)
 	zzverif.TrackWrites(true)
-	switch zzverif.Choice(8) {
+	switch zzverif.Choice(11) {
+	case 8: // an event without level field
+		p.Log().Str("f", "v").Msg("m")
+	case 9:
+		p.WithLevel(NoLevel).Str("f", "v").Send()
+	case 10:
+		LevelFieldName = ""
+		p.Info().Str("f", "v").Msg("m")
 	case 0:
 		_ = p.Level(vLevel())
 	case 1:
@@ -157,6 +164,7 @@ func VH_C05_L4_writeset() {
 	}
 	zzverif.Assert(!zzverif.WroteInto(p.context, 0, cap(p.context)), "derivation or logging never writes into the logger's own context buffer")
 	zzverif.TrackWrites(false)
+	zzverif.Assert(p.context == nil || !vPoolAliases(p.context), "no pooled event keeps a reference to the logger's context buffer")
 	zzverif.Assert(zzverif.EqualBytes(p.context, ctxBefore) && vHooksEqual(p.hooks, hooksBefore), "logger unchanged by deriving from it or logging through it")
 	zzverif.Reach("C05/L4")
 }
